@@ -144,7 +144,7 @@ func (comp) Gen(prop string, rng *rand.Rand, tier string) *core.History {
 	}
 	hostile := core.Chance(rng, 1, 8)    // negative sizes (rejected by the LRU; outside C17's domain)
 	withRemove := core.Chance(rng, 1, 6) // Remove / Clear (outside C17's domain; the monitor forgets the keys)
-	nops := 15 + rng.Intn(36)
+	nops := core.LongHistory(rng, 15+rng.Intn(36))
 	// Close (the property is about an OPEN persister; what Close does is stated in Props/C17.v): in one
 	// history out of five, at a random point; the history goes on after it (and may close again)
 	closeAt := -1
